@@ -1,7 +1,7 @@
 #!/bin/sh
 # tools/confirm_seed.sh <ID> [extra cargo args for the demo]  -- confirm a sub-agent's seeded change in its scratch worktree
 ID=$1; shift
-WT=/tmp/wt-$ID
+WT=${WTPREFIX:-/tmp/wt-}$ID
 cd $WT || exit 2
 export CARGO_NET_OFFLINE=true
 DEMO=$(ls fast-tlsh/tests/demo_*.rs 2>/dev/null | head -1)
